@@ -71,7 +71,7 @@ Lemma with_edges_self G : gio_with_edges G (io_edges G) = G.
 Proof. destruct G; reflexivity. Qed.
 
 Lemma entries_forward (b : Z -> Z) total m rest : forall len k G,
-  io_kind G = KBipartite -> k + Z.of_nat len = total ->
+  io_kind G = GioBipartite -> k + Z.of_nat len = total ->
   (forall j, In j (zseq k len) -> b j = 0 \/ (b j = 1 /\ edge_ok G (mcell m j))) ->
   gio_matrix_entries (map (fun j => MGood (b j)) (zseq k len) ++ rest) k total m G =
   GOk (gio_with_edges G (insert_all (map (mcell m) (filter (fun j => b j =? 1) (zseq k len))) (io_edges G)), rest).
@@ -184,8 +184,8 @@ Proof.
 Qed.
 
 (* ---------- write then read ---------- *)
-Theorem matrix_roundtrip G : gio_wf G -> io_kind G = KBipartite ->
-  gio_read_matrix (gio_write_matrix G) = GOk (mkIOG KBipartite [] (io_n G) (io_r G) (io_edges G)).
+Theorem matrix_roundtrip G : gio_wf G -> io_kind G = GioBipartite ->
+  gio_read_matrix (gio_write_matrix G) = GOk (mkIOG GioBipartite [] (io_n G) (io_r G) (io_edges G)).
 Proof.
   intros (Hn & Hr & _ & Hs & Hf) HK. unfold gio_read_matrix.
   rewrite matrix_stream_written by assumption. unfold matrix_rows. cbn [concat map app gio_mpop gio_bind fst snd].
@@ -197,7 +197,7 @@ Proof.
   { rewrite app_nil_r, <- flat_map_concat_map.
     pose proof (flat_rows (fun u v => bitZ (gio_has_edge G u v)) m Hr (Z.to_nat n)) as FR.
     rewrite Z2Nat.id in FR by exact Hn. rewrite FR, map_map. reflexivity. }
-  rewrite Hstream. set (G0 := mkIOG KBipartite [] n m []).
+  rewrite Hstream. set (G0 := mkIOG GioBipartite [] n m []).
   assert (Hedge : forall j, b j = 1 -> In (mcell m j) (io_edges G)).
   { intros j Hj. unfold b, bitZ in Hj. destruct (gio_has_edge G (j / m + 1) (j mod m + 1)) eqn:E; [|discriminate].
     apply has_edge_In in E. rewrite HK in E. exact E. }
